@@ -14,19 +14,19 @@ CLAIMS = {
     "C07": ("router.ServeHTTP and Tree.Match executed with symbolic method and path: every Go run-time panic is an assertion, exactly one chain is observed per request, it is the not-found chain iff the method is unknown or no route admits, and a repeated request (also under explored map orders) gives the same outcome.", "§3/C07"),
     "C09": ("Real Headers()/SetHeaderMatcher/HeaderMatcher.Match/ServeHTTP with symbolic header presence and values against C01's oracle gated per route in every form and method.", "§3/C09"),
     "C10": ("Differential in one symbolic run: ServeHTTP (static shortcut) vs routeTrees[method].Match for the same request, after fixed registration/Headers() histories.", "§3/C10"),
-    "C03": ("A real Flame instance (Use/Group/Get/Action/ServeHTTP, createContext, run, Next, inject, default return handler) runs chains of up to 4 (quick) / 6 (thorough) handlers whose behaviour words (write before/after, 0-2 Next calls, returned body, cancellation) are symbolic choices; the recorded enter/exit event trace must equal that of a reference model written from the statement.", "§3/C03"),
+    "C03": ("A real Flame instance (Use/Group/Get/Action/ServeHTTP, createContext, run, Next, inject, default return handler) runs chains of up to 4 (quick) / 6 (thorough) handlers whose behaviour words (write before/after, 0-2 Next calls, returned body, cancellation) are symbolic choices (bodies written with Write or streamed with io.Copy); the recorded enter/exit event trace must equal that of a reference model written from the statement.", "§3/C03"),
     "C04": ("Real inject (Map/MapTo/Set/SetParent/Value/Invoke/fastInvoke/callInvoke/Apply) over a declared type universe with symbolic registrations in 1-3 nested scopes, all explored map orders, against a reference resolver (nearest scope, exact type, then any implementor of that scope); error-naming, run-exactly-once, unchanged results, fast vs reflective.", "§3/C04"),
-    "C12": ("Leaf.URLPath / router.URLPath with symbolic values (any bytes), symbolic presence and withOptional, real strings.Replacer from stdlib SSA, against the substitution the statement describes; inverse clause asserted on symbolic routing runs; the demanded panics checked.", "§3/C12"),
+    "C12": ("Leaf.URLPath / router.URLPath / Context.URLPath (under several sets of own request parameters) with symbolic values (any bytes), symbolic presence and withOptional, real strings.Replacer from stdlib SSA, against the substitution the statement describes; inverse clause asserted on symbolic routing runs; the demanded panics checked.", "§3/C12"),
     "C14": ("Handlers of every supported return shape with symbolic strings/bytes/status/nil-ness run through a real Flame; status line, body bytes and chain continuation are asserted against the statement's table; reflective and teapot fast path; registered ReturnHandler replaces the table.", "§3/C14"),
-    "C15": ("Real Recovery() closure in chains with symbolic panic kind (string, error, two run-time errors, struct, failed dependency resolution), phase, earlier status, environment, nesting style: nothing escapes ServeHTTP, status/body rules, middleware in front completes, a later request is served normally.", "§3/C15"),
-    "C05": ("REDUCED CLAIM - interleavings are not explored. A sequential sufficient condition is decided: during a symbolic request through a real application with routes of every kind, every store the interpreter executes is checked against the memory reachable from package globals when the request starts; a store into that shared memory outside sync.Once / mutex / atomic is a violation. The same request served twice must give the same response.", "§3/C05, §4"),
+    "C15": ("Real Recovery() closure in chains with symbolic panic kind (string - also empty or ending in a line break -, error - also with an empty message -, two run-time errors, struct, failed dependency resolution), phase, earlier status, environment, nesting style: nothing escapes ServeHTTP, status/body rules, middleware in front completes, a later request is served normally.", "§3/C15"),
+    "C05": ("REDUCED CLAIM - interleavings are not explored. A sequential sufficient condition is decided: during a symbolic request through a real application with routes of every kind (one of them panics into Recovery), every store the interpreter executes is checked against the memory reachable from package globals when the request starts; a store into that shared memory outside sync.Once / mutex / atomic is a violation. The same request served twice must give the same response.", "§3/C05, §4"),
     "C06": ("REDUCED CLAIM - participle is not executed symbolically. (a) Rendering clause on the real code with symbolic token contents; on nine shapes and on every segment structure with up to 2/3 elements; (b) the solver (regex theory) decides equality of the lexer's character classes and of the token-level grammar (struct tags) with the README EBNF, all re-extracted from source each run; (b') for every byte string up to 16 (quick) / 22 (thorough) bytes the lexer's state machine as written (states, rule order, push/pop) composed with the struct-tag grammar accepts iff the README grammar does - two QF_BV queries per length over symbolic bytes; (c) every witness and >=500 solver-drawn strings are confirmed on the real parser (no panic, accepted iff documented, canonical form a fixpoint, AST mirrors the derivation).", "§3/C06, §4"),
     "C08": ("Real AddRoute (and everything below it, incl. regexp.Compile) on registration histories of up to 3 routes (1-3 segments, some 4-6) whose every identifier is a symbolic byte, against a mustReject predicate written from the statement: error iff ill-formed, never a crash; at router level a symbolic method string and per-method duplicates.", "§3/C08"),
     "C11": ("A registration program template (3 nesting levels; Group, Get/Post/Delete, Routes in both spellings, Any, AutoHead toggles, Combo inside and outside groups and across groups, empty route paths, an optional route shadowing Any) with symbolic statement guards, list lengths and slice capacities runs on the real router; afterwards every (method, path) is requested and the handler list handed to the context is compared with the flat expansion.", "§3/C11"),
     "C16": ("Real Static() closure with symbolic URL path, method and file-system answers (error/file/directory, failing Stat): only GET/HEAD, only under the prefix at a segment boundary, only the two allowed names are opened, silence when it cannot serve, 302 for slash-less directories, 304 on ETag match; plus the http.Dir containment lemma executed from stdlib SSA with os.Open intercepted.", "§3/C16"),
-    "C17": ("Real Renderer/render.* with symbolic status, charset, indentation and body bytes: status, Content-Type before the status line, verbatim bytes; encoders stubbed by contract (reduced claim).", "§3/C17"),
+    "C17": ("Real Renderer/render.* with symbolic status, charset, indentation and body bytes: status, Content-Type before the status line, verbatim bytes; JSON values incl. non-compact and nil json.RawMessage; encoders stubbed by contract (reduced claim).", "§3/C17"),
     "C18": ("Real accessors with symbolic query values/defaults/presence; typed accessors over a menu of hostile numerals; cookie round trip as solver-decided lemmas over all byte values on the real net/url code, with net/http's cookie writer/reader assumed identity on QueryEscape's alphabet.", "§3/C18"),
-    "C13": ("Every k-step operation sequence (k<=4 quick, <=5 thorough) on the real responseWriter with symbolic status code, method bytes and write lengths, plus a one-step inductive lemma from an arbitrary invariant-satisfying state (sequences of any length modulo the invariant).", "§3/C13"),
+    "C13": ("Every k-step operation sequence (k<=4 quick, <=5 thorough) on the real responseWriter with symbolic status code, method bytes and write lengths (also with before-functions that register further ones while they run), plus a one-step inductive lemma from an arbitrary invariant-satisfying state (sequences of any length modulo the invariant).", "§3/C13"),
 }
 
 TECH_BY = {
